@@ -123,16 +123,66 @@ def extract(fn):
                 out["final_shift"] = _const(v.right)
                 out["round_up"] = False
                 continue
-            raise ExtractError(f"unrecognised final conversion: {txt}")
+            # any other expression over `ratio`: kept as an AST, evaluated / translated operator by operator
+            names = {n.id for n in ast.walk(v) if isinstance(n, ast.Name)}
+            if names != {"ratio"}:
+                raise ExtractError(f"unrecognised final conversion: {txt}")
+            out["final_expr"] = v
+            out["final_shift"], out["round_up"] = None, None
+            continue
         if isinstance(st, ast.Return):
             if not _is_name(st.value, "sqrt_price_x96"):
                 raise ExtractError("unrecognised return")
             continue
         raise ExtractError(f"unrecognised statement: {ast.unparse(st)[:100]}")
-    for k in ("seed", "max_abs", "inv_const", "final_shift", "round_up"):
+    for k in ("seed", "max_abs", "inv_const") + (() if out.get("final_expr") is not None else ("final_shift", "round_up")):
         if out[k] is None:
             raise ExtractError(f"missing {k}")
     return out
+
+
+def final_eval(ex, ratio: int) -> int:
+    """concrete value of an unrecognised final expression"""
+    return int(eval(compile(ast.Expression(ex["final_expr"]), "<final>", "eval"), {"__builtins__": {}}, {"ratio": ratio}))
+
+
+def final_z3(ex, ratio):
+    """z3 Int term of an unrecognised final expression over the Int term `ratio` (+, -, *, //, %, >>, << by constants, comparisons, conditional)"""
+    import z3
+
+    def tr(n):
+        if isinstance(n, ast.Name):
+            return ratio
+        if isinstance(n, ast.Constant) and isinstance(n.value, int):
+            return z3.IntVal(n.value)
+        if isinstance(n, ast.BinOp):
+            if isinstance(n.op, (ast.LShift, ast.RShift)):
+                k = _const(n.right)
+                a = tr(n.left)
+                return a * z3.IntVal(1 << k) if isinstance(n.op, ast.LShift) else a / z3.IntVal(1 << k)  # Int division floors for positive divisors
+            a, b = tr(n.left), tr(n.right)
+            if isinstance(n.op, ast.Add):
+                return a + b
+            if isinstance(n.op, ast.Sub):
+                return a - b
+            if isinstance(n.op, ast.Mult):
+                return a * b
+            if isinstance(n.op, ast.FloorDiv):
+                return a / b
+            if isinstance(n.op, ast.Mod):
+                return a % b
+        if isinstance(n, ast.IfExp):
+            return z3.If(trb(n.test), tr(n.body), tr(n.orelse))
+        raise ExtractError(f"final conversion: unsupported expression {ast.unparse(n)}")
+
+    def trb(n):
+        if isinstance(n, ast.Compare) and len(n.ops) == 1:
+            a, b = tr(n.left), tr(n.comparators[0])
+            op = n.ops[0]
+            return {ast.Eq: a == b, ast.NotEq: a != b, ast.Lt: a < b, ast.LtE: a <= b, ast.Gt: a > b, ast.GtE: a >= b}[type(op)]
+        raise ExtractError(f"final conversion: unsupported test {ast.unparse(n)}")
+
+    return tr(ex["final_expr"])
 
 
 def model(ex):
@@ -149,6 +199,8 @@ def model(ex):
                 ratio = (ratio * c) >> s
         if tick > 0:
             ratio = ex["inv_const"] // ratio
+        if ex.get("final_expr") is not None:
+            return final_eval(ex, ratio)
         fs = ex["final_shift"]
         r = ratio >> fs
         if ex["round_up"] and ratio % (1 << fs) != 0:
